@@ -44,7 +44,13 @@ GEN_TIES = {
     "C10": ["build_pagination_token_eq", "parse_pagination_token_eq", "C09_source_token_roundtrip"],
     "C19": ["chunks_iter_eq", "detailed_chunks_iter_eq", "C19_source_chunks"],
     "C02": ["chunks_iter_eq", "lru_iter_eq", "C19_source_chunks", "C02_source_lru_iter"],
+    # the storage classes (gen/gen_storage.py -> lean/Gen/Storage.lean, equal to the storage machines of the model)
+    "C15": ["FileStorage.read_eq", "FileStorage.write_eq", "MemoryStorage.read_eq", "MemoryStorage.write_eq", "MemMapStorage.read_eq",
+            "C15_source_mmap", "C15_source_write"],
+    "C11": ["FileStorage.check_for_corruption_eq", "FileStorage.len_eq", "FileStorage.read_eq", "FileStorage.write_eq"],
+    "C18": ["FileStorage.check_for_corruption_eq", "FileStorage.write_eq"],
 }
+HELPER_TIES = {"C17", "C09", "C10", "C19", "C02"}
 
 
 class Outcome(object):
@@ -322,14 +328,15 @@ def run(prop, tier, seed, scratch, build):
         lost = [t for t in tie if t not in gthm or not set(gthm[t]) <= leanbuild.ALLOWED_AXIOMS]
         gen_broken = bool(lost) or not gen.get("ok")
         out.extra["translation_tie"] = {
-            "what": "traph/helpers.py translated to Lean by gen/gen_helpers.py on this run; each generated function proved equal to the "
-                    "model function (Gen/HelpersEq.lean); property theorems restated on the generated functions (Gen/Lifted.lean)",
+            "what": "traph/helpers.py and traph/storage/*.py translated to Lean by gen/gen_helpers.py / gen/gen_storage.py on this run; each "
+                    "generated function proved equal to the model function (Gen/HelpersEq.lean, Gen/StorageEq.lean); property theorems "
+                    "restated on the generated functions (Gen/Lifted.lean, C15_source_*)",
             "functions": gen.get("status"), "theorems": {t: gthm.get(t) for t in tie}, "checks": not gen_broken,
             "no_longer_checks": lost, "log": (gen.get("log") or "")[-1200:] if gen_broken else ""}
         if gen_broken:
-            out.notes.append("translation tie for helpers.py does not check on this tree (%s): tie by correspondence only, with a "
-                             "larger budget on the helper functions" % (", ".join(lost) or "build"))
-            print("NOTE property=%s translation tie for traph/helpers.py unavailable or broken; correspondence carries the tie" % prop)
+            out.notes.append("translation tie (helpers.py / storage classes) does not check on this tree (%s): tie by correspondence only, "
+                             "with a larger differential budget" % (", ".join(lost) or "build"))
+            print("NOTE property=%s translation tie (helpers.py / storage classes) unavailable or broken; correspondence carries the tie" % prop)
 
     def one(lines_or_seed, corpus_name=None, profile=profile, nops=nops):
         if corpus_name is not None:
@@ -375,10 +382,14 @@ def run(prop, tier, seed, scratch, build):
             break
 
     if gen_broken and len(oracle_hits) < 3 and not corr_hits:
-        hp = dict(profile); hp["r"] = {"helpers": 10, "paginate": 1 if prop in ("C09", "C10") else 0, "metrics": 1 if prop in ("C19", "C02") else 0}
-        hp["read_rate"] = 1.0
-        for i in range(300 if tier == "quick" else 4000):
-            one(base + 500000 + i, profile=hp, nops=5)
+        if prop in HELPER_TIES:
+            hp = dict(profile); hp["r"] = {"helpers": 10, "paginate": 1 if prop in ("C09", "C10") else 0, "metrics": 1 if prop in ("C19", "C02") else 0}
+            hp["read_rate"] = 1.0
+            extra_n, extra_ops = (300 if tier == "quick" else 4000), 5
+        else:                                   # storage classes: more of the property's own sequences (both back-ends, reopenings)
+            hp, extra_n, extra_ops = profile, (120 if tier == "quick" else 1500), nops
+        for i in range(extra_n):
+            one(base + 500000 + i, profile=hp, nops=extra_ops)
             if len(oracle_hits) >= 3 or corr_hits or time.time() > deadline + 60:
                 break
 
